@@ -33,11 +33,12 @@ func init() {
 			sort.Strings(names)
 			r.Floor("printable name fields of call", len(names), 2)
 			covered := map[string]bool{}
+			// the injector's package path: the string parameter handed on to accessibleFrom as the destination package
 			var pkgParam *types.Var
-			for _, f := range fi.Decl.Type.Params.List {
-				for _, nm := range f.Names {
-					if nm.Name == "pkgPath" || (isString(fi.Info.TypeOf(nm)) && pkgParam == nil && nm.Name != "name") {
-						pkgParam, _ = fi.Info.Defs[nm].(*types.Var)
+			for _, cl := range fi.callsTo(pathW + ".accessibleFrom") {
+				if len(cl.Args) == 3 {
+					if v := fi.varOf(cl.Args[2]); v != nil && fi.isParam(v) {
+						pkgParam = v
 					}
 				}
 			}
